@@ -4,7 +4,7 @@
 From Coq Require Import List Arith Lia Bool PeanoNat.
 Import ListNotations.
 From SP Require Import Replay.
-From SP Require Slots Slots7 SlotsTop Result TaskFS TInv Cor NetA Inv Pres Top Ghost GhostPres Early NetTop.
+From SP Require Slots Slots7 SlotsTop Result TaskFS TInv Cor NetA Inv Pres Top Ghost GhostPres Early NetTop Port.
 
 (* ------------------------------------------------------------------ slots *)
 Module RS.
@@ -252,3 +252,34 @@ Definition hist_of (x : st * gst) (e : nat) : list nat := hist (snd x) e.
 Definition crt_of (x : st * gst) (v : nat) : list (list nat) := crt (snd x) v.
 Definition cur_of (x : st * gst) (v : nat) : list (nat * nat) := cur (snd x) v.
 End RNI.
+
+(* ------------------------------------------------------------------ one in-port with several upstreams (fan-in) *)
+Module RP.
+Definition port_replay (c : Port.cfg) (script : list (line Port.st Port.act)) : verdict Port.st Port.act :=
+  replay Port.st Port.act (Port.step c) (Port.init c) script.
+
+Lemma run_same c s l : Replay.run Port.st Port.act (Port.step c) s l = Port.run c s l.
+Proof. revert s. induction l as [|a r IH]; simpl; intros s; auto. destruct (Port.step c s a); auto. Qed.
+
+(* an accepted port history is an execution of the port machine: per upstream, what was received is a prefix, in order,
+   of what that upstream sends; and if the receiver was observed to see the port closed, it has received everything *)
+Theorem port_replay_explained c script s' sched stp :
+  1 <= Port.cap c -> 1 <= Port.ns c ->
+  port_replay c script = Accepted s' sched stp ->
+  (forall r, r < Port.ns c -> Port.from r (Port.hist s') = firstn (Port.rcv s' r) (Port.plan c r)) /\
+  (Port.seen s' = true -> forall r, r < Port.ns c -> Port.from r (Port.hist s') = Port.plan c r).
+Proof.
+  intros C N H. apply replay_sound in H. rewrite run_same in H. split.
+  - exact (proj1 (Port.merge_is_orderly c C N sched s' H)).
+  - intros Hs. exact (Port.complete_when_seen c C N sched s' H Hs).
+Qed.
+End RP.
+
+Module RPI.
+Definition mk_cfg (n : nat) (pl : nat -> list nat) (cp : nat) : Port.cfg := {| Port.ns := n; Port.plan := pl; Port.cap := cp |}.
+Definition a_send := Port.PSend.   Definition a_close := Port.PClose.
+Definition a_recv := Port.PRecv.   Definition a_seeclosed := Port.PSeeClosed.
+Definition hist_of (s : Port.st) : list (nat * nat) := Port.hist s.
+Definition counts (s : Port.st) (r : nat) : nat * nat * bool := (Port.sent s r, Port.rcv s r, Port.opn s r).
+Definition flags (s : Port.st) : bool * bool := (Port.closed s, Port.seen s).
+End RPI.
